@@ -21,13 +21,15 @@ RULE = ('T2/T3: one request head (request line + Host field) through the real Se
 	'Section H: every gen-delim / sub-delim and % SP \\ " < > ^ ` { | } percent-encoded in both hex cases, literal where a segment may hold it, doubly encoded, overlong and as Unicode look-alikes (/ :), '
 	'at the END of a segment followed by // /// /./ /../ /%2e/ /%2E%2e/ /.// and a trailing // /. /.. and at the BEGINNING of a segment preceded by the same, in origin-form and absolute-form (two prefixes in full, six rotating; thorough: all eight); '
 	'section I: ~90 foreign schemes (ws wss ftp gopher file mailto urn h2 https+x ..., mixed case, look-alikes, every scheme the working tree registers) and 11 spellings of http / https x 21 target shapes; '
-	'section J: random paths over the union alphabet (a target that begins with ":" is kept out: URI.parse reads it as an empty scheme, reported). '
+	'section J: random paths over the union alphabet (a target that begins with ":" is kept out: URI.parse reads it as an empty scheme, reported); '
+	'section K (the class of the repaired finding D55): ~75 segments that must be percent-encoded in a Location or would be read a second time (% ? # : @ [ ] space, controls, non-ASCII, doubly encoded dots / slashes / letters, sub-delims) x 14 contexts that force a redirect x origin-form and two absolute-form prefixes. '
+	'Every 301 is FOLLOWED: a second request GET <Location> HTTP/1.1 (Host: h) goes through the real machine and its outcome is part of the observation. '
 	'Observation = the eight URI slots + class default port + method + version of the delivered request, or status code (+ Location for 301), or escaping exception. '
 	'inet_pton, the IDNA codec, str.lower on non-ASCII text, HeaderElement.parse up to the constructor and \\d/int() on non-ASCII digits are instantiated by the pairs recorded from the run. '
 	'Oracle (independent of the model): path_ok, delivered path = segment-wise decoding of the wire path, a target whose RFC 3986 scheme is not http/https (ASCII case-insensitive) is never delivered and the delivered scheme is the lower-cased wire scheme, no userinfo/fragment, host and port = independent reading of the Host value '
-	'(or configured defaults), 301 Location = RFC 3986 5.2.4 of the decoded path, only 301/400/505 otherwise. non-trivial = distinct (outcome, code, form, Host class)')
+	'(or configured defaults), 301 only for a non-canonical path, Location = the RFC 3986 5.2.4 form of the slash-collapsed decoded path percent-encoded segment by segment (pchar literal, two upper-case hex digits otherwise: no query, no fragment, nothing read twice) and the followed request is delivered with exactly that decoded path, only 301/400/505 otherwise. non-trivial = distinct (outcome, code, form, Host class)')
 EXHAUSTIVE = {'quick': True, 'thorough': True}
-TRUSTED = ['harness/tables/servertarget.py (T1: class of a fresh Request URI, HTTP-based scheme keys, accepted-scheme tuple, MAX_URI_LENGTH = inf, RE_HOSTNAME class incl. every non-ASCII code point, HOSTPORT probes, digit-limit probe) and the tables of the composed models',
+TRUSTED = ['harness/tables/servertarget.py (T1: class of a fresh Request URI, HTTP-based scheme keys, accepted-scheme tuple, MAX_URI_LENGTH = inf, RE_HOSTNAME class incl. every non-ASCII code point, HOSTPORT probes, digit-limit probe, LOCATION_VARIANT: three probe requests decide whether the 301 Location is re-parsed (D55 as found) or composed once (repaired)) and the tables of the composed models',
 	'harness/props/C06.py + coq/Corr/C06.v (T2 canonicalisation: text slots compared as UTF-8; T3: callee tables recorded by wrapping socket.inet_pton, URI._unquote_host, URI.compose, Host.parse/__init__ from outside)',
 	'text is represented by its UTF-8 octets; Lib/Utf8.v models CPython strict UTF-8 validity (validated in T2)',
 	'the composed models Model/StartLine.v, UriSyntax.v, UriPath.v, UriNorm.v, Percent.v are tied by their own properties (C18, C10, C11, C13) and again here end to end']
@@ -38,7 +40,7 @@ ASSUMPTIONS = ['inet_pton/inet_ntop, the IDNA codec, str.lower, the charset deco
 KNOWN_D26 = 'D26-host-port-zero'
 KNOWN_D53 = 'D53-redirect-location-not-rooted'
 KNOWN_D54 = 'D54-http10-absolute-form-keeps-target-authority'
-KNOWN_D55 = 'D55-redirect-location-reparsed'
+KNOWN_D1 = 'D1-redirect-low-octet'
 
 CFGS = [('http', 'localhost', 8090), ('https', 'example.org', 443), ('https', 'srv', None), ('http', 'badport', 70000)]
 TOKENS = [b'/', b'.', b'..', b'%2e', b'%2E', b'%2f', b'%252e', b'\\', b'a', b';x', b'*', b'%c0%ae']
@@ -52,7 +54,7 @@ WITNESSES = [
 	(KNOWN_D26, head(b'GET / HTTP/1.1', [b'h:0'])),
 	(KNOWN_D53, head(b'GET /../a HTTP/1.1', [b'h'])),
 	(KNOWN_D54, head(b'GET http://evil:81/x HTTP/1.0')),
-	(KNOWN_D55, head(b'GET /x/../%2561 HTTP/1.1', [b'h'])),
+	(KNOWN_D1, head(b'GET /x/../%01 HTTP/1.1', [b'h'])),
 ]
 
 
@@ -265,7 +267,30 @@ def observe(c):
 	o['reached'] = REC.reached
 	o['hostraw'] = REC.hostraw.hex() if REC.hostraw is not None else None
 	o['tables'] = _tables()
+	if o['out'] == 'status' and o['code'] == 301 and 'loc' in o:
+		o['follow'] = _follow(Machine, bytes.fromhex(o['loc']), c['cfg'])   # after the tables: the second run is not part of the correspondence
 	return o
+
+
+def _follow(Machine, loc, cfg):
+	"""what a client gets that follows the redirect: GET <Location> HTTP/1.1 with a plain Host field, same server configuration"""
+	from httoop.status import StatusException
+	REC.reset()
+	sm = Machine(*CFGS[cfg])
+	try:
+		msgs = sm.parse(b'GET ' + loc + b' HTTP/1.1\r\nHost: h\r\n\r\n')
+	except StatusException as exc:
+		f = {'out': 'status', 'code': int(exc.code)}
+		l2 = exc.headers.get('Location')
+		if l2 is not None:
+			f['loc'] = _u8(l2).hex() if isinstance(l2, str) else bytes(l2).hex()
+		return f
+	except Exception as exc:
+		return {'out': 'escape', 'exc': type(exc).__name__, 'msg': str(exc)[:120]}
+	if len(msgs) != 1:
+		return {'out': 'incomplete', 'n': len(msgs)}
+	u = msgs[0][0].uri
+	return {'out': 'deliver', 'path': _u8(u.path).hex(), 'query': _u8(u.query_string).hex()}
 
 
 # ---------------------------------------------------------------- Coq literals
@@ -388,6 +413,14 @@ FOREIGN_SCHEMES = [b'ws', b'wss', b'WS', b'WSS', b'Ws', b'wSs', b'wsS', b'ftp', 
 ALLOWED_SCHEMES = [b'http', b'https', b'HTTP', b'HTTPS', b'Http', b'Https', b'hTTp', b'httpS', b'hTtPs', b'HTTPs', b'hTTPS']
 SCHEME_SHAPES = [b'%s://h/', b'%s://h/x?q=1', b'%s://example.com:81/a/b', b'%s://h', b'%s://h/a/../b', b'%s://h//x', b'%s://h/%%2e', b'%s:/x', b'%s:x', b'%s:', b'%s:///x', b'%s://u@h/', b'%s://h/#f',
 	b'%s://[::1]:8/x', b'%s://:p@h/x', b'%s://u:p@h/', b'%s://h:0/', b'%s:u@h', b'%s:a:b:c', b'%s:*', b'%s://h/a%%3a//b']
+
+
+# K. segments of a canonical path that need encoding in a Location ('@' in a context marks the place of the segment)
+REDIRECT_SEGS = [b'%25', b'%2561', b'%2541%2542', b'%252e', b'%252E%252e', b'%252f', b'%252F', b'%2f', b'%2F', b'a%2fb', b'%25%32%65', b'%2525', b'%252525', b'%25zz', b'%25%', b'%2',
+	b'a%3Fb', b'a%3fb=c', b'%3F', b'%3Fq', b'a%23b', b'%23', b'%23f', b'a%3Fb%23c', b'%C3%A4', b'%c3%a4', b'%e2%82%ac', b'%F0%9F%98%80', b'%E2%80%AE', b'%c3%a4%2f%c3%b6', b'%ef%bc%8f', b'a%20b', b'%20', b'%09',
+	b'%7e', b'~', b'a%3Ab', b'%3a', b'%3A%3a', b'a:b', b'a%40b', b'%40', b'a@b', b'%5B%5D', b'%5b', b'%01', b'%00', b'%0f', b'%0A', b'%0d%0a', b'%10', b'%1f', b'%7f', b'a+b', b'a%2Bb', b'a%26b%3Dc',
+	b'%22%3C%3E', b'%5c', b'%5C..', b'%5E%60%7B%7C%7D', b'a;p=1', b'%3B', b"!$&'()*+,;=", b'%21%24%26%27%28%29%2A%2C', b'a', b'A%41', b'%61', b'.a', b'a.', b'...', b'..a', b'%2e%2e%2e', b'%2e.a', b'-._~', b'%2D%2E%5F%7E']
+REDIRECT_CTX = [b'/x/../@', b'/./@', b'//@', b'/@/.', b'/@/..', b'/@//', b'/@/./y', b'/x/@/../@', b'/%2e/@', b'/%2E%2e/@', b'/a/@//b', b'/../@', b'/x/..//@/', b'/@/x/%2e%2E/']
 
 
 def _registered_schemes():
@@ -536,6 +569,15 @@ def gen_cases(rng, tier):
 		elif r < 0.4:
 			t = rng.choice(schemes) + b'://h' + t
 		add(rng.choice([b'GET', b'GET', b'POST']), t, rng.choice([b'HTTP/1.1', b'HTTP/1.1', b'HTTP/1.0']), [rng.choice(HOST_GOOD)] if rng.random() < 0.85 else [], cfg=rng.randrange(3))
+	# K. the class of D55 (repaired): segments that must be percent-encoded in the Location of the 301 -- or would be decoded / split a
+	#    second time if the Location were parsed again -- in every context that forces a redirect
+	for seg in REDIRECT_SEGS:
+		for ctx in REDIRECT_CTX:
+			t = ctx.replace(b'@', seg)
+			add(b'GET', t, b'HTTP/1.1', [b'h'], cfg=0)
+			add(_rot([b'GET', b'POST', b'HEAD'], i), _rot([b'http://h', b'HTTPS://H:8443', b'http://[::1]:81'], i) + t)
+			if big:
+				add(b'GET', t + b'?q=%2561&r=%3F', b'HTTP/1.0', [], cfg=_rot([0, 1, 2], i))
 	return cases
 
 
@@ -597,6 +639,22 @@ def canonical(decoded):
 	return rfc_rds(re.sub('/{2,}', '/', decoded))
 
 
+PCHAR_SAFE = "!$&'()*+,;=:@"   # RFC 3986 pchar = unreserved / pct-encoded / sub-delims / ":" / "@"  (urllib keeps the unreserved characters)
+
+
+def encode_path(text):
+	"""the decoded path text (an escaped slash is spelled '%2f' in it, as in URI.path) percent-encoded segment by segment: RFC 3986 3.3 / 2.1"""
+	return '/'.join(urllib.parse.quote(seg, safe=PCHAR_SAFE) for seg in text.split('/')).encode('ascii')
+
+
+def _show_follow(f):
+	if f['out'] == 'deliver':
+		return 'delivered path %r query %r' % (bytes.fromhex(f['path']).decode('utf-8', 'replace'), bytes.fromhex(f['query']).decode('utf-8', 'replace'))
+	if f['out'] == 'status':
+		return 'status %d%s' % (f['code'], ' Location %r' % (bytes.fromhex(f['loc']),) if 'loc' in f else '')
+	return repr(f)
+
+
 def read_host(raw):
 	"""independent reading of a plain Host value: (host, port-or-None) or None when the value is not plain"""
 	if raw is None or not raw or any(c < 0x21 or c > 0x7e for c in raw) or any(c in raw for c in b';,"=?'):
@@ -648,14 +706,23 @@ def oracle(c, o):
 				return 'redirect-canonical: 301 although the decoded path %r is canonical' % (decoded,)
 			lp = RFC3986.match(loc)
 			got = decode_path(lp.group(3)) if lp and not lp.group(1) and lp.group(2) is None and lp.group(4) is None and lp.group(5) is None else None
-			if got is None or got != want:
-				if want.startswith('/') and not loc.startswith(b'/') and got is not None and '/' + got == want:
-					return 'redirect-not-rooted: Location %r, canonical path %r' % (loc, want)
-				if not want.startswith('/') and got == want:
-					return 'redirect-not-rooted: Location %r for decoded path %r' % (loc, decoded)
-				return 'redirect-reparse: Location %r does not name the canonical path %r' % (loc, want)
-			if not path_ok(got):
-				return 'redirect-not-rooted: Location %r is not a canonical path' % (loc,)
+			if want.startswith('/') and not loc.startswith(b'/') and got is not None and '/' + got == want:
+				return 'redirect-not-rooted: Location %r, canonical path %r' % (loc, want)
+			if not path_ok(want):
+				return 'redirect-target: the canonical form %r of the decoded path %r is not a sanitised path' % (want, decoded)
+			want_loc = encode_path(want)
+			f = o.get('follow') or {'out': 'missing'}
+			followed = f['out'] == 'deliver' and bytes.fromhex(f['path']).decode('utf-8') == want and not f['query']
+			if any(ord(ch) < 0x10 for ch in want) and (loc != want_loc or not followed):
+				return 'redirect-low-octet: Location %r for the canonical path %r (expected %r), following it gives %s' % (loc, want, want_loc, _show_follow(f))
+			if loc != want_loc:
+				return 'redirect-location: Location %r is not the percent-encoded canonical path %r of %r (the class of the repaired finding D55)' % (loc, want_loc, want)
+			if not followed:
+				if ':' in want and f['out'] == 'status' and f['code'] == 400:
+					# the Location IS the canonical path, which is all C06 states; that the library then refuses a request path with a ':'
+					# (finding D49 of C04: URI.parse takes '/a' for a scheme) is not a violation of C06: observed, not failed
+					return None
+				return 'redirect-follow: the request for Location %r is not delivered with the canonical path %r: %s' % (loc, want, _show_follow(f))
 		return None
 	# ---- delivered
 	u = [bytes.fromhex(x).decode('utf-8') if isinstance(x, str) else x for x in o['uri']]
@@ -712,8 +779,8 @@ def classify(c, o, failure):
 		return KNOWN_D53
 	if failure.startswith('host-absent-absolute:'):
 		return KNOWN_D54
-	if failure.startswith('redirect-reparse:'):
-		return KNOWN_D55
+	if failure.startswith('redirect-low-octet:'):
+		return KNOWN_D1
 	return None
 
 
@@ -734,8 +801,10 @@ LEVEL_TEXT = ('Machine-checked Coq theorems about a closed Gallina model of the 
 	'set_request_uri_host), for request lines of any length and every instantiation of the callees: every delivered request has path "*", "" or a path '
 	'starting with "/" without "." / ".." segment and without empty interior segment (the percent-decoding of every wire segment is inside the model), '
 	'scheme http/https, no user information, no fragment; host and port are what Host.sanitize returned (port 0 excepted: finding D26) or, without Host '
-	'under HTTP/1.0 and a scheme-less target, the configured defaults; every other outcome is 301 with the normalised path, 400 or 505. Refuted with witnesses: '
-	'Location not rooted (D53) / re-parsed (D55), HTTP/1.0 absolute-form without Host keeps the target authority (D54). Model tied to /repo on every run by '
+	'under HTTP/1.0 and a scheme-less target, the configured defaults; every other outcome is 301 with the normalised path, 400 or 505. After the repair of D55 (model variant chosen by a T1 probe) the Location of the 301 '
+	'is exactly the normalised path percent-encoded as URI.compose writes a path, and any request whose target is that Location is delivered with the same decoded path instead of being redirected again '
+	'(for canonical paths that begin with "/", contain no ":" (D49) and no octet below 0x10 (D1)). Refuted with witnesses: '
+	'Location not rooted (D53), the as-found Location re-parsed (D55), the followed request refused for a ":" (D49) / one-digit escape (D1), HTTP/1.0 absolute-form without Host keeps the target authority (D54). Model tied to /repo on every run by '
 	'regenerated tables and a vm_compute correspondence on all targets of <= 3 tokens over the 12-token alphabet x Host forms.')
 LEVEL_NOTE = ('Trusted: Coq kernel + vm_compute; T1/T2/T3 harness; text modelled by UTF-8 octets; inet_pton, IDNA, str.lower, charset decoder, '
 	'HeaderElement.parse and Unicode \\d are Section parameters. No axioms (Print Assumptions: closed).')
